@@ -16,12 +16,15 @@
 #endif
 
 /* ---- memmove by contract (sound weakening of the C standard's specification) ---- */
+struct myth_thread;
+struct myth_thread * BUF[QMAX];
 size_t g_mm_k;                      /* witness cell of the moved block */
 int g_mm_calls;
 void * verif_memmove(void * d, const void * s, size_t n)
   __CPROVER_requires(n % sizeof(void *) == 0 && n <= QMAX * sizeof(void *))
-  __CPROVER_requires(n == 0 || (__CPROVER_r_ok(s, n) && __CPROVER_w_ok(d, n)))
-  __CPROVER_assigns(g_mm_calls; n > 0: __CPROVER_object_upto(d, n))
+  __CPROVER_requires(__CPROVER_same_object(d, BUF) && __CPROVER_same_object(s, BUF) && "re-centring moves cells of the queue storage only")
+  __CPROVER_requires(__CPROVER_POINTER_OFFSET(d) + n <= QMAX * sizeof(void *) && __CPROVER_POINTER_OFFSET(s) + n <= QMAX * sizeof(void *))
+  __CPROVER_assigns(g_mm_calls, __CPROVER_object_whole(BUF))     /* weaker than memmove: everything but the witness cell is forgotten */
   __CPROVER_ensures(g_mm_k < n / sizeof(void *) ==> ((void **)d)[g_mm_k] == __CPROVER_old(((void * const *)s)[g_mm_k]))
   __CPROVER_ensures(g_mm_calls == __CPROVER_old(g_mm_calls) + 1)
   __CPROVER_ensures(__CPROVER_return_value == d);
@@ -31,30 +34,35 @@ void * verif_memmove(void * d, const void * s, size_t n)
 #undef memmove
 
 struct myth_thread_queue Q;
-myth_thread_t BUF[QMAX];
 char CELL[8];                       /* &CELL[i]: distinguishable thread identities */
 int g_lock_held, g_lock_calls, g_unlock_calls, g_trylock_fails, g_abort_expected, g_abort_calls;
 
-/* the queue's spin lock by contract (C04 proves the spin lock itself) */
+/* the queue's spin lock by contract (C04 proves the spin lock itself).  Acquiring it is an interference point for
+   what it protects: until then thieves and passers (other workers) may have moved `base` -- so a value of base read
+   BEFORE the lock says nothing afterwards.  top is written by the owner only. */
+int g_w, g_base0, g_top0, g_size0;
 void lock_contract(myth_spinlock_t * l)
   __CPROVER_requires(l == &Q.lock && g_lock_held == 0)
-  __CPROVER_assigns(g_lock_held, g_lock_calls)
-  __CPROVER_ensures(g_lock_held == 1 && g_lock_calls == __CPROVER_old(g_lock_calls) + 1);
+  __CPROVER_assigns(g_lock_held, g_lock_calls, Q.base, g_base0, g_abort_expected, g_mm_k)
+  __CPROVER_ensures(g_lock_held == 1 && g_lock_calls == __CPROVER_old(g_lock_calls) + 1)
+  __CPROVER_ensures(0 <= Q.base && Q.base <= g_top0 && g_base0 == Q.base && g_abort_expected == 0)
+  __CPROVER_ensures(!(Q.base == 0 && Q.top == Q.size))        /* a completely full queue makes the library abort: excluded (assumption) */
+  __CPROVER_ensures(g_mm_k == (g_w >= Q.base ? (size_t)(g_w - Q.base) : (size_t)0));
 void unlock_contract(myth_spinlock_t * l)
   __CPROVER_requires(l == &Q.lock && g_lock_held == 1)
   __CPROVER_assigns(g_lock_held, g_unlock_calls)
   __CPROVER_ensures(g_lock_held == 0 && g_unlock_calls == __CPROVER_old(g_unlock_calls) + 1);
 int trylock_contract(myth_spinlock_t * l)
   __CPROVER_requires(l == &Q.lock && g_lock_held == 0)
-  __CPROVER_assigns(g_lock_held, g_lock_calls)
-  __CPROVER_ensures((__CPROVER_return_value == 1 && g_lock_held == 1 && !g_trylock_fails) || (__CPROVER_return_value == 0 && g_lock_held == 0 && g_trylock_fails))
+  __CPROVER_assigns(g_lock_held, g_lock_calls, Q.base, g_base0)
+  __CPROVER_ensures((__CPROVER_return_value == 1 && g_lock_held == 1 && !g_trylock_fails && 0 <= Q.base && Q.base <= g_top0 && g_base0 == Q.base) ||
+                    (__CPROVER_return_value == 0 && g_lock_held == 0 && g_trylock_fails && Q.base == __CPROVER_old(Q.base) && g_base0 == __CPROVER_old(g_base0)))
   __CPROVER_ensures(g_lock_calls == __CPROVER_old(g_lock_calls) + (g_trylock_fails ? 0 : 1));
 void abort_contract(void)
   __CPROVER_requires(0 && "the overflow abort is reachable only when the queue is completely full (base == 0 and top == size), which the harness excludes")
   __CPROVER_assigns(g_abort_calls) __CPROVER_ensures(0);
 
-int g_w; myth_thread_t g_wv;        /* witness element of the view */
-int g_base0, g_top0, g_size0;
+myth_thread_t g_wv;               /* value of the witness element g_w of the view */
 
 static void setup(_Bool need_room_top, _Bool need_room_bottom) {
   int i;
@@ -80,23 +88,26 @@ void h_push(void) {
   myth_queue_push(&Q, th);
   int delta = Q.base - g_base0;
   __CPROVER_assert(WF() && LOCKS_BALANCED(), "push: queue stays well formed, lock released on return");
-  __CPROVER_assert(Q.top - Q.base == g_top0 - g_base0 + 1, "push: exactly one element more");
+  __CPROVER_assert(Q.top - Q.base == g_top0 - g_base0 + 1, "push: exactly one element more (than at the instant the lock was obtained, if it was)");
   __CPROVER_assert(Q.ptr[Q.top - 1] == th, "push: the new element is the newest (top) one");
-  __CPROVER_assert(g_w < 0 || Q.ptr[g_w + delta] == g_wv, "push: every older element is preserved in order, also across re-centring");
+  __CPROVER_assert(g_w < 0 || g_w < g_base0 || Q.ptr[g_w + delta] == g_wv, "push: every older element (still in the queue) is preserved in order, also across re-centring");
   __CPROVER_assert(delta == 0 || (g_top0 == g_size0 && delta < 0 && g_mm_calls == 1 && g_lock_calls == 1), "push: the storage is re-centred only when the top hit the end, under the lock");
   VERIF_CANARY();
 }
 void h_pop(void) {
   setup(0, 0);
+  int base_pre = Q.base;
   myth_thread_t r = myth_queue_pop(&Q);
   __CPROVER_assert(WF() && LOCKS_BALANCED(), "pop: queue stays well formed, lock released on return");
-  if (g_top0 == g_base0) {
-    __CPROVER_assert(r == 0 && Q.top == Q.base, "pop: NULL iff empty, still empty");
+  if (g_top0 == base_pre) {
+    __CPROVER_assert(r == 0 && Q.top == g_top0 && Q.base == base_pre && g_lock_calls == 0, "pop: NULL at once on an empty queue, nothing changed");
+  } else if (g_lock_calls == 1 && g_base0 > g_top0 - 1) {
+    /* the last element was stolen before the owner obtained the lock */
+    __CPROVER_assert(r == 0 && Q.top == Q.base, "pop: NULL when thieves emptied the queue first; the queue is left empty");
   } else {
     __CPROVER_assert(Q.top == g_top0 - 1 && Q.base == g_base0, "pop: exactly one element less, taken from the top");
     __CPROVER_assert(g_w != g_top0 - 1 || r == g_wv, "pop: returns the newest element");
-    __CPROVER_assert(g_w < 0 || g_w == g_top0 - 1 || Q.ptr[g_w] == g_wv, "pop: every other element is preserved");
-    __CPROVER_assert(r != 0 || g_w != g_top0 - 1 || g_wv == 0, "pop: a non-empty queue yields its element");
+    __CPROVER_assert(g_w < 0 || g_w == g_top0 - 1 || g_w < g_base0 || Q.ptr[g_w] == g_wv, "pop: every other element is preserved");
   }
   VERIF_CANARY();
 }
@@ -108,8 +119,8 @@ void h_take(void) {
     __CPROVER_assert(r == 0 && Q.top == g_top0 && Q.base == g_base0, "take: NULL iff empty, nothing changed");
   } else {
     __CPROVER_assert(Q.base == g_base0 + 1 && Q.top == g_top0, "take: exactly one element less, taken from the base");
-    __CPROVER_assert(g_w != g_base0 || r == g_wv, "take: returns the oldest element");
-    __CPROVER_assert(g_w < 0 || g_w == g_base0 || Q.ptr[g_w] == g_wv, "take: every other element is preserved");
+    __CPROVER_assert(g_w != g_base0 || g_top0 == g_base0 || r == g_wv, "take: returns the oldest element");
+    __CPROVER_assert(g_w < 0 || g_w <= g_base0 || Q.ptr[g_w] == g_wv, "take: every other element is preserved");
     __CPROVER_assert(g_lock_calls == 1, "take: the base is advanced under the queue lock");
   }
   VERIF_CANARY();
@@ -131,7 +142,7 @@ void h_put(void) {
   __CPROVER_assert(WF() && LOCKS_BALANCED(), "put: queue stays well formed, lock released on return");
   __CPROVER_assert(Q.top - Q.base == g_top0 - g_base0 + 1, "put: exactly one element more");
   __CPROVER_assert(Q.ptr[Q.base] == th, "put: the new element is the oldest (base) one");
-  __CPROVER_assert(g_w < 0 || Q.ptr[g_w + delta] == g_wv, "put: every other element is preserved in order, also across lower-boundary re-centring");
+  __CPROVER_assert(g_w < 0 || g_w < g_base0 || Q.ptr[g_w + delta] == g_wv, "put: every other element (still in the queue) is preserved in order, also across lower-boundary re-centring");
   __CPROVER_assert(delta == 0 || (g_base0 == 0 && delta > 0 && g_mm_calls == 1), "put: the storage is re-centred only when the base hit the start");
   __CPROVER_assert(g_lock_calls == 1, "put: done under the queue lock");
   VERIF_CANARY();
@@ -147,7 +158,7 @@ void h_trypass(void) {
   } else {
     __CPROVER_assert(r == 1 && Q.base == g_base0 - 1 && Q.top == g_top0 && Q.ptr[Q.base] == th, "trypass: the passed thread becomes the oldest element");
   }
-  __CPROVER_assert(g_w < 0 || Q.ptr[g_w] == g_wv, "trypass: every other element is preserved");
+  __CPROVER_assert(g_w < 0 || g_w < g_base0 || Q.ptr[g_w] == g_wv, "trypass: every other element (still in the queue) is preserved");
   VERIF_CANARY();
 }
 void * real_malloc(size_t n) { void * p = malloc(n); __CPROVER_assume(p != 0); return p; }
